@@ -15,6 +15,8 @@ type modelProp struct {
 	rule    string
 	// optional extra body run inside the case after the program
 	after func(e *Env)
+	// optional metamorphic twin of a program
+	twin func(p *Program) *Program
 }
 
 func (mp *modelProp) runCase(t TB, prog *Program) {
@@ -26,7 +28,18 @@ func (mp *modelProp) runCase(t TB, prog *Program) {
 		mp.after(e)
 	}
 	cfgFlags(e)
+	if mp.twin != nil {
+		// metamorphic twin: same ops, other configuration; checked against the model too
+		p2 := mp.twin(prog)
+		e2 := NewEnv(t, p2, mp.opts)
+		defer e2.Teardown()
+		e2.Run()
+		e.flag("twin-run")
+	}
 	st.Case(prog.Hash(), mp.nt(e), e.flags, func() interface{} { return prog })
+	st.Add("sweep_queries", e.sweepQueries_)
+	st.Add("sweep_queries_partial_result", e.sweepPartial)
+	st.Add("ops_executed", len(prog.Ops))
 }
 
 func (mp *modelProp) test(t *testing.T) {
